@@ -123,6 +123,10 @@ def judge(cfg, name, args):
                 name, tuple(vals), ts, r, b, type(e).__name__, e)), prog
         return None, prog
     got, gts = opgrid.results(m, n)
+    for i, a in enumerate(args):
+        if a[0] in "IBF" and m.refval(i) != int(a[2]):
+            return ("operand-altered", "%s%r on %s changed the reported value of operand %d from %d to %d" % (
+                name, tuple(vals), ts, i, int(a[2]), m.refval(i))), prog
     if exp is refsem.RAISES:
         return ("returned-where-reference-raises", "%s%r on %s returned %r where the reference raises" % (name, tuple(vals), ts, got)), prog
     p = m.p
